@@ -89,9 +89,68 @@ def sites(sel: List[int]) -> bool:
     return judge([l for l in labels if l.startswith(("esc:", "tagged-syntax:"))])
 
 
+# ---------------------------------------------------------------------------------- default texts taken from docstrings
+# What griffe reports as the default of a documented parameter: the source text of the default in the signature
+# (numpydoc/google/sphinx alike) or the text after "default" in the docstring. The analyser stores that text as the
+# parameter's default whenever the docstring supplies the parameter's type.
+DOC_DEFAULTS = ["1", "-2.5", '"t"', "None", "True", "False", "'t'", "''", "np.nan", "auto", "[1, 2]", "'it\\'s'", "1e-3"]
+DOC_DEFAULT_KIND = {"None": "python-constant", "True": "python-constant", "False": "python-constant", "'t'": "single-quoted-string",
+                    "''": "single-quoted-string", "np.nan": "not-a-literal", "auto": "not-a-literal", "[1, 2]": "not-a-literal",
+                    "'it\\'s'": "single-quoted-string-with-escape"}
+DOC_DEFAULT_WANT = {"1": "1", "-2.5": "-2.5", '"t"': '"t"', "None": "null", "True": "true", "False": "false", "'t'": '"t"', "''": '""',
+                    "1e-3": "1e-3"}
+
+
+def docstring_defaults(sel: List[int]) -> bool:
+    """A parameter whose default is the text a docstring parser reported: the stub parses and the default is the
+    Safe-DS literal with the same value.
+
+    pre: len(sel) == SEL_LEN and fixed(sel)
+    post: _
+    """
+    from vlib.gapi import FLOAT, INT, PA, STR, mk_function
+
+    try:
+        cur = Cur()
+        convert = rd(sel, cur, 2) == 1
+        text = DOC_DEFAULTS[rd(sel, cur, len(DOC_DEFAULTS))]
+        kind = [PA.POSITION_OR_NAME, PA.NAME_ONLY][rd(sel, cur, 2)]
+        owner_is_class = rd(sel, cur, 2) == 1
+    except OutOfRange:
+        return True
+    api = mk_api()
+    m = mk_module(api, "pkg/m")
+    ty = STR if text[0] in "'\"" else FLOAT if "." in text or "e" in text else INT
+    param = {"name": "p", "type_": ty, "kind": kind, "optional": True, "default": text}
+    if owner_is_class:
+        c = mk_class(api, m, "K")
+        mk_function(api, c, "__init__", params=[{"name": "self", "kind": PA.IMPLICIT}, param])
+    else:
+        mk_function(api, m, "f", params=[param])
+    fs, _, _ = generate(api, convert)
+    note("oracle")
+    labels = []
+    with untraced():
+        for path, text_ in fs.files.items():
+            try:
+                f = parse(text_)
+            except StubSyntaxError:
+                labels.append(f"syntax:docstring-default-text:{DOC_DEFAULT_KIND.get(text, 'number-or-double-quoted-string')}")
+                continue
+            for _, d in f.all_decls():
+                for prm in d.params:
+                    if prm.pyname == "p" and text in DOC_DEFAULT_WANT and prm.default != DOC_DEFAULT_WANT[text]:
+                        labels.append(f"docstring-default-value-changed:{DOC_DEFAULT_KIND.get(text, 'number-or-double-quoted-string')}")
+    return judge(labels)
+
+
 def CANDIDATES(func: str):
     import itertools
 
+    if func == "docstring_defaults":
+        for sel in itertools.product(range(2), range(len(DOC_DEFAULTS)), range(2), range(2)):
+            yield [list(sel) + [0] * 6]
+        return
     if func == "sites":
         for sel in itertools.product(range(3), range(15), range(13), range(3), range(2)):
             yield [list(sel) + [0] * 5]
